@@ -126,16 +126,22 @@ impl RouterListApi {
                         let sys_name = html_escape::encode_safe(&sys_name);
                         let sys_desc = html_escape::encode_safe(&sys_desc);
 
-                        let sys_name = if sys_name.len() > MAX_INFO_TLV_LEN {
-                            &sys_name[0..=MAX_INFO_TLV_LEN]
-                        } else {
-                            &sys_name[..]
-                        };
-                        let sys_desc = if sys_desc.len() > MAX_INFO_TLV_LEN {
-                            &sys_desc[0..=MAX_INFO_TLV_LEN]
-                        } else {
-                            &sys_desc[..]
-                        };
+                        // Cut at a character boundary: the escaped text may
+                        // contain multi-byte characters, and slicing inside
+                        // one panics.
+                        fn truncated(s: &str) -> &str {
+                            if s.len() > MAX_INFO_TLV_LEN {
+                                let mut end = MAX_INFO_TLV_LEN + 1;
+                                while !s.is_char_boundary(end) {
+                                    end -= 1;
+                                }
+                                &s[..end]
+                            } else {
+                                s
+                            }
+                        }
+                        let sys_name = truncated(&sys_name);
+                        let sys_desc = truncated(&sys_desc);
 
                         let router_id = Arc::new(format_source_id(
                             &self.router_id_template.load(),
